@@ -228,9 +228,8 @@ func c14DateImage(cm *c14Model, f *kit.Func, fparam *types.Var) *c14Image {
 	info := f.Info()
 	var img *c14Image
 	deciding := c14DecidingLoops(cm, f)
-	ruInspectOwn(f, func(n ast.Node) bool {
-		rs, ok := n.(*ast.RangeStmt)
-		if !ok || kit.ObjOf(info, rs.X) != types.Object(fparam) || rs.Value == nil || img != nil {
+	visit := func(rs *ast.RangeStmt) bool {
+		if kit.ObjOf(info, rs.X) != types.Object(fparam) || img != nil {
 			return true
 		}
 		for d := range deciding {
@@ -238,7 +237,10 @@ func c14DateImage(cm *c14Model, f *kit.Func, fparam *types.Var) *c14Image {
 				return true // nested in the window loop: the classic shape
 			}
 		}
-		dv := kit.ObjOf(info, rs.Value)
+		dv := kit.LoopElemVar(info, rs)
+		if dv == nil {
+			return true
+		}
 		// the append
 		var app *ast.AssignStmt
 		nApp := 0
@@ -381,6 +383,9 @@ func c14DateImage(cm *c14Model, f *kit.Func, fparam *types.Var) *c14Image {
 		})
 		img = im
 		return true
-	})
+	}
+	for _, rs := range ruOwnLoops(f) {
+		visit(rs)
+	}
 	return img
 }
